@@ -457,6 +457,74 @@ re-checks only the signature (`sigOnly`) of the already decoded token and marks 
 def attemptsSignatureOnlyFallback {C : Type} (verify sigOnly : String → Parsed C) (first second : String) : Parsed C :=
   if (verify first).isErr then sigOnly second else verify first
 
+/-! ## concurrency on `TokenParser.history`: several requests inside `ParseToken` (rotation path) at once -/
+
+namespace Conc
+
+/-- where a request is inside `ParseToken` / `incrementCount`; every constructor is one access to the shared map (or the
+two verifications, which touch no shared state) -/
+inductive Pc (C : Type) where
+  | loadCur                                                  -- about to `loadCount(secret)`
+  | loadPrev (c : Nat)                                       -- about to `loadCount(prevSecret)`
+  | parse (c p : Nat)                                        -- the attempts, ordered by the two values READ
+  | incrReset (s : String) (r : Parsed C)                    -- `incrementCount`: the reset test and the clearing
+  | incrLoad (s : String) (r : Parsed C)                     -- `history.Load(secret)`
+  | incrWrite (s : String) (r : Parsed C) (present : Bool)   -- `atomic.AddUint64` on the loaded cell / `history.Store`
+  | done (r : Parsed C)
+  deriving DecidableEq
+
+/-- one request: its own verification function (its own token) and the parser's secret pair -/
+structure Req (C : Type) where
+  verify : String → Parsed C
+  secret : String
+  prev   : String
+
+structure St (C : Type) where
+  counts : List (String × Nat)     -- the shared `history`
+  pcs    : List (Pc C)             -- thread `t` is at `pcs[t]`
+
+def countOf (cs : List (String × Nat)) (s : String) : Nat :=
+  match cs.find? (·.1 = s) with
+  | some (_, n) => n
+  | none => 0
+
+/-- `atomic.AddUint64` on a cell that was loaded earlier: lost when the entry has been deleted meanwhile -/
+def bump (cs : List (String × Nat)) (s : String) : List (String × Nat) :=
+  cs.map fun kn => if kn.1 = s then (kn.1, kn.2 + 1) else kn
+
+/-- `history.Store(secret, &1)`: overwrites whatever another request stored meanwhile -/
+def store (cs : List (String × Nat)) (s : String) : List (String × Nat) :=
+  cs.filter (fun kn => kn.1 ≠ s) ++ [(s, 1)]
+
+/-- one step of one request; `expired` = what its clock reading makes of the reset test -/
+def stepPc {C : Type} (req : Req C) (expired : Bool) (cs : List (String × Nat)) : Pc C → List (String × Nat) × Pc C
+  | .loadCur => (cs, .loadPrev (countOf cs req.secret))
+  | .loadPrev c => (cs, .parse c (countOf cs req.prev))
+  | .parse c p =>
+    if (req.verify (if c > p then req.secret else req.prev)).isErr then
+      if (req.verify (if c > p then req.prev else req.secret)).isErr then (cs, .done .err)
+      else (cs, .incrReset (if c > p then req.prev else req.secret) (req.verify (if c > p then req.prev else req.secret)))
+    else (cs, .incrReset (if c > p then req.secret else req.prev) (req.verify (if c > p then req.secret else req.prev)))
+  | .incrReset s r => (if expired then [] else cs, .incrLoad s r)
+  | .incrLoad s r => (cs, .incrWrite s r (cs.any (·.1 = s)))
+  | .incrWrite s r present => (if present then bump cs s else store cs s, .done r)
+  | .done r => (cs, .done r)
+
+/-- the scheduler lets thread `t` take one step -/
+def step {C : Type} (reqs : List (Req C)) (st : St C) (t : Nat) (expired : Bool) : St C :=
+  match reqs[t]?, st.pcs[t]? with
+  | some req, some pc => { counts := (stepPc req expired st.counts pc).1, pcs := st.pcs.set t (stepPc req expired st.counts pc).2 }
+  | _, _ => st
+
+/-- a schedule: which thread steps next, and what its clock reading says about the reset -/
+def run {C : Type} (reqs : List (Req C)) (st : St C) : List (Nat × Bool) → St C
+  | [] => st
+  | te :: rest => run reqs (step reqs st te.1 te.2) rest
+
+def init {C : Type} (n : Nat) (counts : List (String × Nat)) : St C := { counts := counts, pcs := List.replicate n .loadCur }
+
+end Conc
+
 /-- the registered claim names `Authorize` does not forward -/
 def standardClaims : List String := ["aud", "exp", "jti", "iat", "iss", "nbf", "sub"]
 
